@@ -47,6 +47,7 @@ type world struct {
 	dex          *dexWorld
 	slash        *slashWorld
 	lastBlockTxs [][]byte
+	lastNonce    map[string]uint64
 	cur          *node // node whose process the simulator is currently "inside"
 }
 
